@@ -136,9 +136,9 @@ pub fn gen(ctx: &Ctx) {
                         // chunked declared more than once / in another spelling: still exactly one framing field (F36)
                         8 => vec!["!T".into(), "!T".into()],
                         9 => vec![te(b"chunked"), "!T".into()],
-                        10 => vec![te(*rng.pick(&[&b"Chunked"[..], b" chunked", b"chunked\t", b"CHUNKED"]))],
+                        10 => vec![te([&b"\tchunked"[..], b" chunked", b"chunked\t", b"Chunked", b"CHUNKED", b" \t chunked \t"][(hist_no / 15 % 6) as usize])],
                         // a user-supplied transfer coding that is not exactly one `chunked` (known finding F37)
-                        11 => vec![te(*rng.pick(&[&b"gzip"[..], b"gzip, chunked", b"chunked, gzip", b"identity", b"gzip,\tchunked", b"gzip ,chunked\t"]))],
+                        11 => vec![te([&b"gzip,\tchunked"[..], b"gzip, chunked", b"gzip", b"chunked, gzip", b"gzip ,chunked\t", b"identity"][(hist_no / 15 % 6) as usize])],
                         12 => vec![te(b"gzip"), if rng.chance(1, 2) { te(b"chunked") } else { "!T".into() }],
                         13 => vec![te(b"gzip"), format!("={}:{}", hex(b"transfer-encoding"), hex(b"chunked"))],
                         14 => vec![te(b"gzip"), format!("-{}", hex(b"TRANSFER-ENCODING"))],
